@@ -108,3 +108,43 @@ def check(m):
     if not all(a >= 0 for a in np.asarray(ic.aer_days_comp, dtype=float)): out.append("si_aer")
     if not (ic.day_submerged >= 0 and float(ic.day_submerged) == int(ic.day_submerged)): out.append("si_daysub")
     return out
+
+
+def _taw_samples(ps, c, zmin):
+    """TawOK (DayCropRowsP): root-zone and top-soil TAW > 0 — a statement over every rooting depth and water content; evaluated
+    here on a sample of rooting depths (TAW does not depend on the water content): Zmin, Zmax and 9 depths in between"""
+    from aquacrop.solution.root_zone_water import root_zone_water
+    P = ps.Soil.Profile
+    th = np.asarray(P.th_fc, float).copy()
+    for j in range(11):
+        z = zmin + (float(c.Zmax) - zmin) * j / 10.0
+        try:
+            r = root_zone_water(P, float(z), th, float(ps.Soil.z_top), float(zmin), float(c.Aer))
+        except Exception:
+            return False
+        if not (float(r[3]) > 0 and float(r[4]) > 0): return False
+    return True
+
+
+def check_crop_hi(m):
+    """the additional static premises of the crop-state run theorems (DayCropRowsP.ParHIOK = CropHIOK for every season's crop):
+    names of those that FAIL on this initialised model"""
+    ps = m._param_struct
+    out = []
+    for k, c in enumerate(ps.Seasonal_Crop_List):
+        def bad(name): out.append("crop%d.%s" % (k, name))
+        if int(c.CropType) not in (1, 2, 3): bad("type")
+        if not (0 < c.HIini <= c.HI0): bad("hr_ini_HI0")
+        if not c.HIGC >= 0: bad("hr_gc")
+        if not c.dHILinear >= 0: bad("hr_lin")
+        if not c.HI0 >= 0: bad("hc_HI0")
+        if not c.dHI0 >= -100: bad("hc_dHI0")
+        if int(c.CropType) == 1 and not c.dHI0 >= 0: bad("hc_leafy")
+        if not c.exc >= -100: bad("hc_exc")
+        if c.b_HI > 0 and not c.b_HI >= 1: bad("hc_bHI")
+        if not c.HIstartCD <= c.CanopyDevEndCD: bad("hc_cde")
+        if not c.YldFormCD >= 0: bad("hc_yld")
+        if any(float(x) == 0 for x in np.asarray(c.fshape_w, float)[:3]): bad("fs")
+        if not (c.WP >= 0 and c.fCO2 >= 0 and 0 <= c.WPy <= 100): bad("wp")
+        if not _taw_samples(ps, c, float(c.Zmin)): bad("TawOK_sampled")
+    return out
